@@ -532,6 +532,31 @@ def run_case(ctx, c, reqs, pending, paths=('memory', 'eager', 'lazy')):
                             bad = f'non-empty (segment {sn}, plane {p}) has no frame'
             if bad:
                 ctx.fail(dict(desc, path='pydicom'), bad, site='written-file')
+            # iter_segments of the object in memory: per segment the frames named by its per-frame items
+            if c['type'] != 'LABELMAP':
+                ctx.case(path='iter_segments', **hist)
+                try:
+                    seen_segs = []
+                    for frames_s, pffgs, sdesc in seg.iter_segments():
+                        sn = int(sdesc.SegmentNumber)
+                        seen_segs.append(sn)
+                        fr = np.asarray(frames_s).reshape((len(pffgs), c['rows'], c['cols']))
+                        for k, it in enumerate(pffgs):
+                            srcit = it.DerivationImageSequence[0].SourceImageSequence[0]
+                            p = (int(srcit.ReferencedFrameNumber) - 1 if c['source'] == 'enhanced'
+                                 else [v for _, v in ids].index(srcit.ReferencedSOPInstanceUID))
+                            if not np.array_equal(fr[k].astype(np.int64), exp[p, :, :, c['segs'].index(sn)]):
+                                ctx.fail(dict(desc, path='iter_segments'),
+                                         f'iter_segments: frame {k} of segment {sn} (plane {p}) differs from the mask',
+                                         site='iter_segments')
+                                break
+                    want_segs = sorted({s_ for (s_, _) in keys})
+                    if sorted(seen_segs) != want_segs:
+                        ctx.fail(dict(desc, path='iter_segments'), f'iter_segments yields segments {seen_segs}, frames '
+                                 f'exist for {want_segs}', site='iter_segments')
+                except Exception as e:  # noqa: BLE001
+                    ctx.fail(dict(desc, path='iter_segments'), f'iter_segments failed: {type(e).__name__}: {e}'[:300],
+                             site='iter_segments')
             reqs.append(('build', dict(margs, keys=[[(-1 if s is None else s), p] for s, p in keys])))
             pd = bytes(ds.PixelData)
             pending.append((desc, 'build', {'nframes': nf, 'keys': sorted([(-1 if s is None else s), p] for s, p in keys),
